@@ -128,7 +128,7 @@ pub fn stack_strategy() -> BoxedStrategy<Case> {
 }
 
 pub fn render(c: &Case) -> Vec<u32> {
-    let mut dt = DrawTarget::new(c.w, c.h);
+    let mut dt = blank_target(c.w, c.h);
     harmless_prelude(&mut dt, (c.w * 7 + c.h * 13 + c.path.ops.len() as i32 * 5) as u32);
     let opts = DrawOptions { blend_mode: BlendMode::SrcOver, alpha: 1.0, antialias: if c.aa { AntialiasMode::Gray } else { AntialiasMode::None } };
     dt.fill(&c.path.build(), &Source::Solid(SolidSource { r: 255, g: 255, b: 255, a: 255 }), &opts);
